@@ -186,7 +186,7 @@ void do_op(Ctx &c, const Op &o, int idx) {
       break;
     }
     case O_WRITE: {
-      int rc = db_write(c.db, o.ups, o.sync);
+      int rc = o.a > 0 ? db_write_mode(c.db, o.ups, o.sync, o.a) : db_write(c.db, o.ups, o.sync);
       if (rc != LDB_OK) { violation("C01", "write_failed", "write failed: %s", rcname(rc)); return; }
       for (auto &u : o.ups) { if (u.del) c.model.erase(u.key); else model_put(c.model, u.key, mkval(u.tag, u.len, u.fill)); }
       if (!o.ups.empty()) check_get(c, o.ups[c.aux.below(o.ups.size())].key, c.model, nullptr, "C01", "after write");
@@ -528,6 +528,7 @@ Plan gen_model(uint64_t seed, const string &prop) {
         int n = r.chance(0.1) ? (int)r.range(20, 200) : r.chance(0.03) ? 0 : (int)r.range(1, 8); // now and then an empty batch
         for (int q = 0; q < n; q++) { Upd u; u.key = key(); u.del = r.chance(0.25); if (!u.del) { u.tag = tag++; u.len = n > 20 ? (uint32_t)r.range(0, 300) : vlen(); u.fill = (int)r.below(2); } o.ups.push_back(u); }
         o.sync = r.chance(0.1);
+        if (r.chance(0.2)) o.a = (int)r.range(1, 4); // less common forms of the batch API
         break;
       }
       case O_GET: o.key = r.chance(0.85) ? key() : key() + "0"; o.a = r.chance(0.3) ? (int)r.below(NSNAP) : -1; o.b = r.chance(0.03) ? (int)r.range(100, 140) : 1; break;
